@@ -18,7 +18,7 @@ def handle_nullable_contract():
         I.lib = dict(I.lib)
         I.lib[Schema] = lambda I2, a, k: SOpaque("Schema(...)", attrs=dict(k), cls=Schema)
         nullable = None if I.branch_free() else (True if I.branch_free() else False)
-        shape = ["str", "list-without-null", "list-with-null", "oneOf", "anyOf", "allOf", "bare"]
+        shape = ["str", "list-without-null", "list-with-null", "oneOf", "anyOf", "allOf", "str+oneOf", "str+anyOf", "str+allOf", "bare"]
         k = 0
         while k < len(shape) - 1 and not I.branch_free():
             k += 1
@@ -38,6 +38,16 @@ def handle_nullable_contract():
             anyOf = SList([member])
         elif sh == "allOf":
             allOf = SList([member])
+        elif sh.startswith("str+"):
+            # an explicit type NEXT TO a composition keyword: `type: T, nullable: true` is the 3.0 spelling of `type: [T, null]`
+            # whatever else the schema says
+            t = DataType.OBJECT
+            if sh.endswith("oneOf"):
+                oneOf = SList([member])
+            elif sh.endswith("anyOf"):
+                anyOf = SList([member])
+            else:
+                allOf = SList([member])
         s = SObj(Schema, {"nullable": nullable, "type": t, "oneOf": oneOf, "anyOf": anyOf, "allOf": allOf})
         return SFunc("pyfunc", Schema.handle_nullable), [s], {}, {"s": s, "nullable": nullable, "shape": sh, "member": member, "t": t}
 
@@ -60,8 +70,8 @@ def handle_nullable_contract():
         sh = i["shape"]
         if not i["nullable"]:
             # untouched
-            return (s.fields["type"] is i["t"]) and len(s.fields["oneOf"].items) == (1 if sh == "oneOf" else 0) and \
-                len(s.fields["anyOf"].items) == (1 if sh == "anyOf" else 0) and len(s.fields["allOf"].items) == (1 if sh == "allOf" else 0) and \
+            return (s.fields["type"] is i["t"]) and len(s.fields["oneOf"].items) == (1 if sh.endswith("oneOf") else 0) and \
+                len(s.fields["anyOf"].items) == (1 if sh.endswith("anyOf") else 0) and len(s.fields["allOf"].items) == (1 if sh.endswith("allOf") else 0) and \
                 (not isinstance(i["t"], SList) or len(i["t"].items) == 2)
         if sh == "bare":
             return True        # no type, no combinator: the empty schema admits null already
@@ -71,6 +81,13 @@ def handle_nullable_contract():
         if sh == "str":
             from openapi_python_client.schema import DataType
             return isinstance(s.fields["type"], SList) and s.fields["type"].items[0] is DataType.INTEGER and len(s.fields["type"].items) == 2
+        if sh.startswith("str+"):
+            from openapi_python_client.schema import DataType
+            key = sh.split("+")[1]
+            ty = s.fields["type"]
+            return isinstance(ty, SList) and len(ty.items) == 2 and ty.items[0] is DataType.OBJECT and ty.items[1] is DataType.NULL and \
+                all(len(s.fields[k2].items) == (1 if k2 == key else 0) for k2 in ("oneOf", "anyOf", "allOf")) and \
+                s.fields[key].items[0] is i["member"]
         if sh.startswith("list"):
             return len(s.fields["type"].items) == (3 if sh == "list-without-null" else 2)
         if sh in ("oneOf", "anyOf"):
